@@ -1,7 +1,7 @@
 (* C16 - generators: the index decoders used for skip sampling are bijections, the sampled
    indices are distinct and in range. *)
 From Coq Require Import List Arith Lia.
-From XV Require Import Base.Label Base.LSet Model.Decoders Proofs.Combs Proofs.DecoderProofs Proofs.SkipAll Proofs.CompleteProofs Model.Simple Proofs.SunflowerProofs Base.ODict Base.Attr Base.Outcome Model.Hypergraph Model.SimplicialComplex Proofs.ScInv.
+From XV Require Import Base.Label Base.LSet Model.Decoders Proofs.Combs Proofs.DecoderProofs Proofs.SkipAll Proofs.CompleteProofs Model.Simple Proofs.SunflowerProofs Proofs.SimpleGenProofs Base.ODict Base.Attr Base.Outcome Model.Hypergraph Model.SimplicialComplex Proofs.ScInv.
 Import ListNotations.
 
 (* _index_to_edge_comb(index, n, m) is the index-th m-combination of range(n) in lexicographic
@@ -106,3 +106,22 @@ Theorem C16_sunflower : forall l c m, c <= m ->
      forall x, In x (nth p (sunflower_edges l c m) []) -> In x (nth q (sunflower_edges l c m) []) -> x < c).
 Proof. exact sunflower_spec. Qed.
 Print Assumptions C16_sunflower.
+
+(* star_clique: legs at the centre 0, the link to the first clique node, and every set of 2 .. d_max + 1 clique nodes;
+   every edge is a duplicate-free set of existing nodes of an allowed size *)
+Theorem C16_star_clique : forall ns nc dmax, 1 <= ns -> 1 <= nc ->
+  (forall e, In e (star_clique_edges ns nc dmax) ->
+     NoDup e /\ (forall x, In x e -> x < ns + nc) /\ (length e = 2 \/ 2 <= length e <= dmax + 1)) /\
+  (forall i, 1 <= i < ns -> In [0; i] (star_clique_edges ns nc dmax)) /\
+  In [0; ns] (star_clique_edges ns nc dmax) /\
+  (forall f, NoDup f -> (forall x, In x f -> ns <= x < ns + nc) -> 2 <= length f <= dmax + 1 ->
+             exists c, In c (star_clique_edges ns nc dmax) /\ (forall x, In x c <-> In x f)).
+Proof. exact star_clique_spec. Qed.
+Print Assumptions C16_star_clique.
+
+(* ring_lattice: n * (k / 2) edges, each led by its node with d - 1 further members, all existing nodes *)
+Theorem C16_ring_lattice : forall n d k l, 0 < n ->
+  length (ring_lattice_edges n d k l) = n * (k / 2) /\
+  (forall e, In e (ring_lattice_edges n d k l) -> length e = S (d - 1) /\ forall x, In x e -> x < n).
+Proof. exact ring_lattice_spec. Qed.
+Print Assumptions C16_ring_lattice.
